@@ -547,8 +547,6 @@ class SymSeries(_RowsMixin, SymBase):
         return self.to_frame("_v").sort_index(ascending=ascending)["_v"]._with(name=self.name)
 
     def value_counts(self, sort=None, ascending=False, dropna=True, normalize=False, **kw):
-        if normalize:
-            raise Unsupported("value_counts(normalize)")
         if not dropna:
             raise Unsupported("value_counts(dropna=False)")
         from .groupby import group_reduce
@@ -557,7 +555,12 @@ class SymSeries(_RowsMixin, SymBase):
         valid = [And(v, Not(c.null)) for v, c in zip(self.valid, self.cells())]
         first, aggs = group_reduce(key, valid, self.order, [("count", self.cells())])
         idx = Idx([c.num() for c in self.cells()], self.name, True)
-        return SymSeries("count", Col.from_cells(aggs[0], "i"), first, idx, [("vc", p) for p in self.prov], None)
+        out = SymSeries("count", Col.from_cells(aggs[0], "i"), first, idx, [("vc", p) for p in self.prov], None)
+        if normalize:
+            # proportions of the counted (non-missing) values
+            total = Cell(count(valid), F, "i")
+            out = SymSeries("proportion", Col.from_cells([cell_binop("truediv", c, total) for c in out.cells()], "f"), first, idx, out.prov, None)
+        return out
 
     def __repr__(self):
         return f"SymSeries({self.name!r}, kind={self.col.kind}, slots={self.nslots})"
@@ -1419,6 +1422,11 @@ class SymFrame(_RowsMixin, SymBase):
         if isinstance(keys, SymSeries):
             if keys.prov != self.prov:
                 raise Unsupported("set_index unaligned series")
+            if not same_valid(self.valid, keys.valid):
+                # pandas takes the values of the series positionally: the lengths have to agree
+                if decide(count(self.valid) != count(keys.valid)):
+                    raise StructuralError("set_index: Length mismatch between the frame and the series used as index")
+                raise Unsupported("set_index with a differently filtered series of equal length")
             col, name, cols = keys.col, keys.name, list(self.cols)
         else:
             col, name = self.col(keys), keys
